@@ -13,6 +13,16 @@ from .dim import Dim, D, dim_le, dim_lt
 
 MAX_DEPTH = 14
 ALL_CALLS = set()
+EXTRA_FACTS = {}    # facts assumed by the obligation runner while it explores both sides of a branch on unknown sizes (core.run_one)
+
+
+class UnknownBranch(Undecided):
+    """A Python branch whose condition compares sizes that the context leaves open: the runner decides the obligation
+    once under each feasible outcome (DESIGN 2.6)."""
+
+    def __init__(s, key, msg, facts):
+        Undecided.__init__(s, msg)
+        s.key, s.facts = key, facts
 
 
 class PyRaise(Exception):
@@ -587,9 +597,13 @@ class Interp:
         elif isinstance(st, ast.Return):
             raise Ret(s.ev(st.value, env) if st.value is not None else None)
         elif isinstance(st, ast.If):
-            t = s.truth(s.ev(st.test, env), st.test)
+            tv = s.ev(st.test, env)
+            t = s.truth(tv, st.test)
             if t is None:
-                raise Undecided(f"branch on statically unknown condition `{ast.unparse(st.test)}` at {s.site}")
+                msg = f"branch on statically unknown condition `{ast.unparse(st.test)}` at {s.site}"
+                if getattr(tv, "key", None) is not None:
+                    raise UnknownBranch(tv.key, msg, dict(s.facts))
+                raise Undecided(msg)
             s.block(st.body if t else st.orelse, env)
         elif isinstance(st, ast.Assert):
             t = s.truth(s.ev(st.test, env), st.test)
@@ -867,9 +881,13 @@ class Interp:
         k = (kind, repr(l), repr(r))
         if k in s.facts:
             return s.facts[k]
+        if k in EXTRA_FACTS:
+            return EXTRA_FACTS[k]
         k2 = (kind, repr(r), repr(l))
         if kind == "eq" and k2 in s.facts:
             return s.facts[k2]
+        if kind == "eq" and k2 in EXTRA_FACTS:
+            return EXTRA_FACTS[k2]
         return None
 
     def _lt(s, a, b, strict):
@@ -884,6 +902,11 @@ class Interp:
         g = s.fact("le" if strict else "lt", b, a)
         if g is not None:
             return not g
+        # a < b implies a <= b ;  not (a <= b) implies not (a < b)
+        if not strict and s.fact("lt", a, b) is True:
+            return True
+        if strict and s.fact("le", a, b) is False:
+            return False
         if strict and dim_lt(a, b):
             return True
         if not strict and dim_le(a, b):
@@ -892,7 +915,9 @@ class Interp:
             return False
         if not strict and dim_lt(b, a):
             return False
-        return Unknown(f"{a} {'<' if strict else '<='} {b}")
+        u = Unknown(f"{a} {'<' if strict else '<='} {b}")
+        u.key = ("lt" if strict else "le", repr(a), repr(b))
+        return u
 
     # ================================================================== expressions
     def lookup(s, name, env):
@@ -958,8 +983,11 @@ class Interp:
         return Closure(e, env)
 
     def ev_IfExp(s, e, env):
-        t = s.truth(s.ev(e.test, env), e.test)
+        tv = s.ev(e.test, env)
+        t = s.truth(tv, e.test)
         if t is None:
+            if getattr(tv, "key", None) is not None:
+                raise UnknownBranch(tv.key, f"conditional expression on statically unknown condition `{ast.unparse(e.test)}` at {s.site}", dict(s.facts))
             raise Undecided("conditional expression on unknown")
         return s.ev(e.body if t else e.orelse, env)
 
@@ -981,7 +1009,11 @@ class Interp:
             return v
         if isinstance(e.op, ast.Not):
             t = s.truth(v, e.operand)
-            return Unknown("not") if t is None else (not t)
+            if t is None:
+                u = Unknown("not")
+                u.key = getattr(v, "key", None)
+                return u
+            return not t
         if isinstance(e.op, ast.Invert) and isinstance(v, Val) and v.kind == "bool":
             r = nf.add(nf.const(1), v, -1)          # ~mask for a 0/1 indicator
             r.kind = "bool"
@@ -995,6 +1027,8 @@ class Interp:
             v = s.ev(x, env)
             t = s.truth(v, x)
             if t is None:
+                if not unknown:
+                    ukey = getattr(v, "key", None)
                 unknown = True
                 continue
             if isor and t:
@@ -1002,7 +1036,9 @@ class Interp:
             if not isor and not t:
                 return False
         if unknown:
-            return Unknown(ast.unparse(e))
+            u = Unknown(ast.unparse(e))
+            u.key = ukey        # deciding the first open comparison either way lets the evaluation proceed
+            return u
         return not isor
 
     def ev_Compare(s, e, env):
@@ -1234,6 +1270,8 @@ class Interp:
 
 
 class Unknown:
+    key = None      # (kind, repr(a), repr(b)) when the unknown is a comparison of sizes (see UnknownBranch)
+
     def __init__(s, why=""):
         s.why = why
 
